@@ -356,6 +356,15 @@ func tailStr(s string, n int) string {
 	return s
 }
 
+// budget is the wall-clock allowance of one worker process: generous multiples of the measured
+// run time; running out of it yields exhaustive:false, never a violation.
+func budget(r *vk.Run) time.Duration {
+	if r.Thorough() {
+		return 25 * time.Minute
+	}
+	return 4 * time.Minute
+}
+
 func main() {
 	r := vk.Start("C08", "model_checking")
 	scenarios := []e1.Scenario{}
@@ -461,7 +470,10 @@ func main() {
 		scenarios = append(scenarios, listenScenario(at, bound))
 	}
 
-	e1.RunAll(r, scenarios, 0)
+	if r.Thorough() {
+		e1.PerScenario = 6 * time.Minute
+	}
+	e1.RunAll(r, scenarios, budget(r))
 	if r.Worker == "" && r.Replay == "" {
 		racePass(r)
 	}
